@@ -562,7 +562,7 @@ def universe(tier, rng):
     for v in trees(2, 2, LEAVES3):
         if v[0] == "l":
             yield "tree2", "array", v
-    for name, ts, nq in (("tree2w", TREES23(), 2000), ("tree3", TREES32(), 2500)):
+    for name, ts, nq in (("tree2w", TREES23(), 6000), ("tree3", TREES32(), 8000)):
         if tier == "quick":
             for i in sorted(rng.sample(range(len(ts)), nq)):
                 yield name, "array", ts[i]
@@ -571,7 +571,7 @@ def universe(tier, rng):
                 yield name, "array", v
     # seeded random nestings over the full atom set (depth <= 3, some deeper)
     pool = at + [St(rand_string(rng)) for _ in range(200)]
-    n_rand = 800 if tier == "quick" else 12000
+    n_rand = 3000 if tier == "quick" else 12000
     for j in range(n_rand):
         d = 3 if j % 10 else rng.choice([4, 5, 6])
         v = rand_value(rng, d, pool)
@@ -674,6 +674,29 @@ class Impl:
 
 def cps(s):
     return tuple(ord(c) for c in s)
+
+
+def amatch(a, b):
+    """Match on abstract values as Klong defines it: same kind of object everywhere (a character is not a
+    one-character string, a symbol is not a string), numbers by value (an integer matches the real equal to it).
+    klongpy's own ~ is also required by the oracle; this adds the kinds, which ~ does not look at."""
+    ta, tb = a[0], b[0]
+    if ta in ("i", "r") and tb in ("i", "r"):
+        va = a[1] if ta == "i" else bits_to_float(a[1])
+        vb = b[1] if tb == "i" else bits_to_float(b[1])
+        try:
+            if ta != tb:
+                return float(va) == float(vb)
+        except OverflowError:
+            return False
+        return a[1] == b[1] or (ta == "r" and va == vb)
+    if ta != tb:
+        return False
+    if ta == "l":
+        return len(a) == len(b) and all(amatch(x, y) for x, y in zip(a[1:], b[1:]))
+    if ta == "d":
+        return len(a) == len(b) and all(amatch(k1, k2) and amatch(x1, x2) for (k1, x1), (k2, x2) in zip(a[1:], b[1:]))
+    return a == b
 
 
 # ------------------------------------------------------------------ shards
@@ -931,7 +954,7 @@ def check_roundtrip(chk, impl, rng, cases=None, sel=0):
         mback = from_model(mrd[1]) if mrd[0] == "ok" else None
         corr = (r["err"] is None and mrd[0] == "ok" and r["text"] == mtext and r["back"] == mback and r["text2"] == mw2) or \
                (r["err"] is not None and r["err"].startswith("rs:") and mrd[0] == "err" and r["text"] == mtext)
-        prop = r["err"] is None and r["match"] is True and r["text2"] == r["text"]
+        prop = r["err"] is None and r["match"] is True and r["text2"] == r["text"] and amatch(held, r["back"])
         if not m_writable and bad_corr is None:
             bad_corr = {"kind": "universe value outside the model's `writable`", "value": show(held)}
         if not prop:
@@ -977,7 +1000,7 @@ def check_files(chk, impl, rng):
                 text, y = impl.file_roundtrip(x, path)
                 back = canon(y)
                 text2 = impl.write(y)
-                ok = impl.match(x, y) and text2 == text
+                ok = impl.match(x, y) and text2 == text and amatch(held, back)
                 r = {"text": text, "back": back, "text2": text2, "ok": ok, "err": None}
             except Exception as e:  # noqa
                 r = {"text": None, "back": None, "text2": None, "ok": False, "err": type(e).__name__ + ": " + str(e)[:80]}
@@ -1003,6 +1026,38 @@ def check_files(chk, impl, rng):
     return bad_prop, bad_corr
 
 
+def wider_sweep(chk, impl, budget=60000):
+    """after a broken obligation / correspondence: the property's own oracle (implementation only) over the
+    thorough universe, a different seed, and the Form/Format atoms; returns the first failing input outside the known class"""
+    rng = random.Random(chk.seed + 7919)
+    n = 0
+    for kind, mode, v in universe("thorough", rng):
+        if kind in ("tree2w", "tree3") and rng.random() < 0.8:
+            continue
+        n += 1
+        if n > budget:
+            break
+        try:
+            x = impl_value(v, mode, impl.backend)
+        except Exception:  # noqa
+            continue
+        chk.count("sweep_cases")
+        r = impl.roundtrip(x)
+        held = canon(x)
+        if r["err"] is None and r["match"] is True and r["text2"] == r["text"] and amatch(held, r["back"]):
+            continue
+        if mode == "object" and chk.match_known(KNOWN_MIXED) is not None:
+            try:
+                if canon(impl.backend.kg_asarray(raw(held))) != held:
+                    continue        # the known class: not in kg_asarray's normal form
+            except Exception:  # noqa
+                pass
+        return {"kind": "roundtrip (wider sweep)", "value": show(held), "mode": mode,
+                "impl": {k: (show(y) if k == "back" and y else y) for k, y in r.items()},
+                "expected": "read back matches and writes %r again" % (r["text"],)}
+    return None
+
+
 # ------------------------------------------------------------------ run
 def run(tier, replay=None):
     chk = Check("C11", tier)
@@ -1026,7 +1081,7 @@ def run(tier, replay=None):
             bad_corrs.append(b)
     asar = [v for v in trees(2, 2, LEAVES3) if v[0] == "l"]
     for ts in (TREES23(), TREES32()):
-        asar += ts if tier == "thorough" else [ts[i] for i in sorted(rng.sample(range(len(ts)), 2500))]
+        asar += ts if tier == "thorough" else [ts[i] for i in sorted(rng.sample(range(len(ts)), 5000))]
     asar += [L(*[rand_value(rng, 4, [I(1), I(2 ** 53 + 1), R(0.5), St("s"), Ch("c"), Sy("y")]) for _ in range(rng.randint(0, 3))]) for _ in range(500)]
     b = check_asarray(chk, impl, asar)
     if b:
@@ -1043,6 +1098,10 @@ def run(tier, replay=None):
 
     for bp in bad_props:
         chk.violation("written value does not read back to a matching value that writes identically (%s): %s" % (bp["kind"], bp.get("value", bp.get("x", ""))), bp)
+    if not chk.violations and (bad_corrs or not proof["ok"]):
+        bp = wider_sweep(chk, impl)
+        if bp:
+            chk.violation("written value does not read back to a matching value that writes identically (%s): %s" % (bp["kind"], bp["value"]), bp)
     if not chk.violations:
         for bc in bad_corrs:
             chk.violation("correspondence between klongpy and the Coq model broke (%s); no failing input of the property found in %d cases"
@@ -1053,7 +1112,7 @@ def run(tier, replay=None):
     return chk.finish(
         rule="closed universe: every atom of the lists INTS/REALS/chars/symbols, every string of length <= 2 (quick) / 3 (thorough) over the alphabet "
              "\" [ ] : ; space newline 0 c a plus special strings; every list of <= 2 of 19 atoms; every atom inside a list and nested twice; every nesting of depth <= 2 "
-             "with <= 3 elements and (thorough: all / quick: 2500 sampled) of depth 3 with <= 2 elements over {1, 2.5, \"a\"}; seeded random nestings to depth 6; "
+             "with <= 2 elements, (thorough: all 81k / quick: 6000 sampled) of depth <= 2 with <= 3 elements and (thorough: all 76k / quick: 8000 sampled) of depth 3 with <= 2 elements over {1, 2.5, \"a\"}; seeded random nestings to depth 6; "
              "object-array held lists; top-level dictionaries; file round trips through .w/.r; x:$$x on atoms; kg_asarray and reader shards. "
              "distinct_nontrivial = distinct values held by klongpy in the round-trip shard",
         trusted_base=TRUSTED, assumptions=ASSUME)
